@@ -1,0 +1,66 @@
+//go:build verif
+
+// Contracts for the signature manager (C25 quorum event fires once at two thirds, C18 witness), read by /verif/gocv.
+package signature_manager
+
+//@ spec sigKey(id []byte) KeyT = K2(utils.SignatureManagerContractAddress, "sigInfo", id)
+// Status flag carried by a stored SigInfo record (first field of its encoding; the codec is C04's subject)
+//@ uf sigDone(item Bytes) bool
+
+//@ func getSigInfo
+//@   property C25
+//@   mode abstract
+//@   requires native != nil
+//@   modifies nothing
+//@   ensures err == nil ==> r0 != nil
+//@   assumes err == nil ==> (r0.Status <==> (Store[sigKey(id)] != None && sigDone(someval(Store[sigKey(id)]))))
+
+//@ func putSigInfo
+//@   property C25
+//@   mode abstract
+//@   requires native != nil && sigInfo != nil
+//@   modifies Store
+//@   ensures Store == upd(old(Store), old(sigKey(id)), Store[old(sigKey(id))]) && Store[old(sigKey(id))] != None
+//@   assumes sigDone(someval(Store[old(sigKey(id))])) <==> old(sigInfo.Status)
+
+//@ func CheckSigns
+//@   property C25
+//@   mode abstract
+//@   requires native != nil
+//@   modifies Store
+//@   ghost var sk KeyT
+//@   ghost var done0 bool = false
+//@   ghost var gnum int = 0
+//@   ghost var gsum int = 0
+//@   ghost var isVal bool = false
+//@   set entry : sk := sigKey(id)
+//@   set entry : done0 := Store[sigKey(id)] != None && sigDone(someval(Store[sigKey(id)]))
+//@   set before "if num >= (2*sum+2)/3" : gnum := num
+//@   set before "if num >= (2*sum+2)/3" : gsum := sum
+//@   set before "consensus = true" : isVal := has(peerPoolMap.PeerPoolMap, key) && v.Status == node_manager.ConsensusStatus && addrOfKey(pubKeyOfBytes(hexDecode(key))) == address
+//@   loop 1 invariant consensus ==> isVal
+//@   loop 2 invariant 0 <= num && num <= sum && sum <= it2
+//@   -- only the signature record of this subject can change
+//@   ensures[c25-frame] Store == upd(old(Store), sk, Store[sk])
+//@   ensures[c25-error] err != nil ==> Store == old(Store)
+//@   -- the quorum event is emitted exactly when the threshold is reached and it has not been emitted before
+//@   ensures[c25-threshold] err == nil ==> (r0 <==> (!done0 && gnum >= (2*gsum+2)/3))
+//@   ensures[c25-once] done0 ==> !r0
+//@   ensures[c25-marks-done] err == nil && r0 ==> Store[sk] != None && sigDone(someval(Store[sk]))
+//@   -- only an address derived from the key of a current consensus-status pool member may add a signature
+//@   ensures[c25-validator-only] err == nil ==> isVal
+
+//@ func AddSignature
+//@   property C25, C18
+//@   mode abstract
+//@   requires native != nil && native.tx != nil
+//@   modifies Store, native.notifications
+//@   ghost var wit bool = false
+//@   ghost var fired bool = false
+//@   set after "if err := utils.ValidateOwner(native, params.Address); err != nil" : wit := true
+//@   set after "ok, err := CheckSigns(native, id, params.Signature, params.Address)" : fired := ok && err == nil
+//@   callsite[c18-owner] ValidateOwner#1 requires arg1 == params.Address
+//@   callsite[c25-signer-witnessed] CheckSigns#1 requires wit && arg3 == params.Address
+//@   ensures[c18-witness] Store != old(Store) ==> wit
+//@   -- the quorum event is emitted only when the signature count fired
+//@   callsite[c25-event-only-when-fired] AddNotify#1 requires fired
